@@ -8,6 +8,7 @@ import (
 	"encoding/csv"
 	"fmt"
 	"io"
+	"math"
 	"os"
 	"sort"
 	"strconv"
@@ -508,6 +509,30 @@ func (r *Runner) Exec(o Op) (out Out) {
 		if err != nil {
 			return errOut(err)
 		}
+		// the same statistic through the Series methods directly (a fresh Series per column over the live cells)
+		// must agree with the frame-level result, key by key and bit by bit
+		for name, col := range df.Columns {
+			s := dataframe.NewSeries(name, col.Data)
+			var sv float64
+			var serr error
+			switch o.Agg {
+			case "sum":
+				sv, serr = s.Sum()
+			case "mean":
+				sv, serr = s.Mean()
+			case "min":
+				sv, serr = s.Min()
+			default:
+				sv, serr = s.Max()
+			}
+			fv, present := m[name]
+			if serr != nil || !present || math.Float64bits(sv) != math.Float64bits(fv) && !(sv != sv && fv != fv) {
+				return Out{Status: "panic", Msg: fmt.Sprintf("Series.%s and DataFrame.%s disagree on column %q: %v (%v) vs %v", o.Agg, o.Agg, name, sv, serr, fv)}
+			}
+			if fl, ferr := s.AsFloat64(); ferr != nil || len(fl) != len(col.Data) {
+				return Out{Status: "panic", Msg: fmt.Sprintf("AsFloat64 failed or changed the length on a column the aggregate accepted: %v", ferr)}
+			}
+		}
 		v := &Val{K: "floats", Floats: []FloatKV{}}
 		keys := []string{}
 		for k := range m {
@@ -555,6 +580,10 @@ func (r *Runner) Exec(o Op) (out Out) {
 		}
 		if viaRoot(o) {
 			return edit(goframe.AddTypedColumn(df, goframe.NewColumn(string(o.S1), data)))
+		}
+		if (len(o.Cells)+len(o.S1))%3 == 1 {
+			// AddColumn directly, on a column converted by hand
+			return edit(df.AddColumn(goframe.ConvertToAnyColumn(dataframe.NewColumn(string(o.S1), data))))
 		}
 		return edit(dataframe.AddTypedColumn(df, dataframe.NewColumn(string(o.S1), data)))
 	case "dropcolumn":
